@@ -280,4 +280,23 @@ Theorem C14_grammar_pass_consumed_if_stack_harmless :
   (length pass <= pidx pass (parse_pass pass wsnl toks attr))%nat.
 Proof. exact parse_pass_consumed_harmless. Qed.
 
+(* UNBOUNDED, on the grammar model: for every program of the fragment the Eof token is alone in the last logical line, of type Eof *)
+From PasfmtVerif Require Import Model.Fragment Proofs.FragmentProofs.
+Theorem C14_fragment_single_eof_line :
+  forall ss : stmts,
+  let r := parse_file_model (render_prog ss) [] in
+  exists pre : list lline,
+    r_lines r =
+    pre ++
+    [{|
+       ll_type := LLT_Eof;
+       ll_level := 0;
+       ll_parent := None;
+       ll_toks := [S (S (S (length (render ss))))]
+     |}] /\
+    Forall (fun l : lline => ll_type l <> LLT_Eof) pre /\
+    nth_error (render_prog ss) (S (S (S (length (render ss))))) = Some RTT_Eof /\
+    length (render_prog ss) = S (S (S (S (length (render ss))))).
+Proof. exact fragment_single_eof_line. Qed.
+
 
